@@ -7,10 +7,237 @@
     back-end, where failure must be reported exactly when B64^capacity <= exact result. *)
 
 From Coq Require Import ZArith List Bool.
-From ML Require Import base.RustSem model.Fmt model.Vec model.Bigint gen.Consts gen.Tables gen.PowDump proofs.LimbVal proofs.BigintFacts2.
+From ML Require Import base.RustSem model.Fmt model.Vec model.Bigint gen.Consts gen.Tables gen.PowDump proofs.LimbVal proofs.BigintFacts1 proofs.BigintFacts2.
 Import ListNotations.
 
 Open Scope Z_scope.
+
+Theorem C12_small_add_spec :
+  forall (c : config) (v : vec) (y : Z) (v' : vec),
+         limbs_ok (vl v) ->
+         0 <= y < B64 ->
+         small_add c v y = Some v' ->
+         lval (vl v') = lval (vl v) + y /\
+         limbs_ok (vl v') /\
+         zlen (vl v') = zlen (vl v) + (if B64 ^ zlen (vl v) <=? lval (vl v) + y then 1 else 0) /\
+         (alloc c = false -> vcap v' = vcap v) /\
+         (zlen (vl v') = zlen (vl v) -> vcap v' = vcap v) /\
+         vcap v <= vcap v' /\ (zlen (vl v) <= vcap v -> zlen (vl v') <= vcap v').
+Proof. exact small_add_spec. Qed.
+
+Theorem C12_small_add_None_iff_overflow :
+  forall (c : config) (v : vec) (y : Z),
+         limbs_ok (vl v) ->
+         0 <= y < B64 ->
+         alloc c = false -> zlen (vl v) <= vcap v -> small_add c v y = None <-> B64 ^ vcap v <= lval (vl v) + y.
+Proof. exact small_add_None_iff_overflow. Qed.
+
+Theorem C12_small_add_failed_spec :
+  forall (v : vec) (y : Z),
+         limbs_ok (vl v) ->
+         0 <= y < B64 ->
+         lval (vl (small_add_failed v y)) = (lval (vl v) + y) mod B64 ^ zlen (vl v) /\
+         limbs_ok (vl (small_add_failed v y)) /\
+         length (vl (small_add_failed v y)) = length (vl v) /\ vcap (small_add_failed v y) = vcap v.
+Proof. exact small_add_failed_spec. Qed.
+
+Theorem C12_small_mul_spec :
+  forall (c : config) (v : vec) (y : Z) (v' : vec),
+         limbs_ok (vl v) ->
+         0 <= y < B64 ->
+         small_mul c v y = Some v' ->
+         lval (vl v') = lval (vl v) * y /\
+         limbs_ok (vl v') /\
+         zlen (vl v') = zlen (vl v) + (if B64 ^ zlen (vl v) <=? lval (vl v) * y then 1 else 0) /\
+         (alloc c = false -> vcap v' = vcap v) /\
+         (zlen (vl v') = zlen (vl v) -> vcap v' = vcap v) /\
+         vcap v <= vcap v' /\ (zlen (vl v) <= vcap v -> zlen (vl v') <= vcap v').
+Proof. exact small_mul_spec. Qed.
+
+Theorem C12_small_mul_None_iff_overflow :
+  forall (c : config) (v : vec) (y : Z),
+         limbs_ok (vl v) ->
+         0 <= y < B64 ->
+         alloc c = false -> zlen (vl v) <= vcap v -> small_mul c v y = None <-> B64 ^ vcap v <= lval (vl v) * y.
+Proof. exact small_mul_None_iff_overflow. Qed.
+
+Theorem C12_small_mul_failed_spec :
+  forall (v : vec) (y : Z),
+         limbs_ok (vl v) ->
+         0 <= y < B64 ->
+         lval (vl (small_mul_failed v y)) = (lval (vl v) * y) mod B64 ^ zlen (vl v) /\
+         limbs_ok (vl (small_mul_failed v y)) /\
+         length (vl (small_mul_failed v y)) = length (vl v) /\ vcap (small_mul_failed v y) = vcap v.
+Proof. exact small_mul_failed_spec. Qed.
+
+Theorem C12_large_add_from_spec :
+  forall (c : config) (v : vec) (y : list Z) (start : Z) (v' : vec),
+         limbs_ok (vl v) ->
+         limbs_ok y ->
+         0 <= start ->
+         large_add_from c v y start = Some v' ->
+         let M := large_add_len v y start in
+         lval (vl v') = lval (vl v) + lval y * B64 ^ start /\
+         limbs_ok (vl v') /\
+         (start <= zlen (vl v) -> firstn (Z.to_nat start) (vl v') = firstn (Z.to_nat start) (vl v)) /\
+         zlen (vl v') = M + (if B64 ^ M <=? lval (vl v) + lval y * B64 ^ start then 1 else 0) /\
+         (alloc c = false -> vcap v' = vcap v) /\
+         (zlen (vl v') = zlen (vl v) -> vcap v' = vcap v) /\
+         vcap v <= vcap v' /\ (zlen (vl v) <= vcap v -> zlen (vl v') <= vcap v').
+Proof. exact large_add_from_spec. Qed.
+
+Theorem C12_large_add_from_None_iff_overflow :
+  forall (c : config) (v : vec) (y : list Z) (start : Z),
+         limbs_ok (vl v) ->
+         limbs_ok y ->
+         0 <= start ->
+         alloc c = false ->
+         zlen (vl v) <= vcap v ->
+         is_normalized y = true ->
+         large_add_from c v y start = None <-> B64 ^ vcap v <= lval (vl v) + lval y * B64 ^ start.
+Proof. exact large_add_from_None_iff_overflow. Qed.
+
+Theorem C12_long_mul_spec :
+  forall (c : config) (L : limits) (x y : list Z) (z : vec),
+         limbs_ok x ->
+         limbs_ok y ->
+         y <> [] ->
+         long_mul c L x y = Some z ->
+         lval (vl z) = lval x * lval y /\
+         limbs_ok (vl z) /\
+         is_normalized (vl z) = true /\
+         (alloc c = false -> vcap z = BIGINT_LIMBS L) /\ BIGINT_LIMBS L <= vcap z /\ zlen (vl z) <= vcap z.
+Proof. exact long_mul_spec. Qed.
+
+Theorem C12_long_mul_None_iff_overflow :
+  forall (c : config) (L : limits) (x y : list Z),
+         alloc c = false ->
+         limbs_ok x ->
+         limbs_ok y ->
+         y <> [] ->
+         is_normalized x = true ->
+         x <> [] ->
+         zlen x <= BIGINT_LIMBS L -> long_mul c L x y = None <-> B64 ^ BIGINT_LIMBS L <= lval x * lval y.
+Proof. exact long_mul_None_iff_overflow. Qed.
+
+Theorem C12_long_mul_fits_Some :
+  forall (c : config) (L : limits) (x y : list Z),
+         alloc c = false ->
+         limbs_ok x -> limbs_ok y -> y <> [] -> zlen x + zlen y <= BIGINT_LIMBS L -> long_mul c L x y <> None.
+Proof. exact long_mul_fits_Some. Qed.
+
+Theorem C12_large_mul_spec :
+  forall (c : config) (L : limits) (v : vec) (y : list Z) (v' : vec),
+         limbs_ok (vl v) ->
+         limbs_ok y ->
+         vl v <> [] \/ zlen y <= 1 ->
+         large_mul c L v y = Some v' ->
+         lval (vl v') = lval (vl v) * lval y /\
+         limbs_ok (vl v') /\
+         (zlen y <> 1 -> is_normalized (vl v') = true) /\
+         (alloc c = false -> vcap v' = (if zlen y =? 1 then vcap v else BIGINT_LIMBS L)) /\
+         (zlen (vl v) <= vcap v -> zlen (vl v') <= vcap v').
+Proof. exact large_mul_spec. Qed.
+
+Theorem C12_large_mul_None_iff_overflow :
+  forall (c : config) (L : limits) (v : vec) (y : list Z),
+         alloc c = false ->
+         limbs_ok (vl v) ->
+         limbs_ok y ->
+         is_normalized y = true ->
+         2 <= zlen y ->
+         zlen y <= BIGINT_LIMBS L ->
+         vl v <> [] -> large_mul c L v y = None <-> B64 ^ BIGINT_LIMBS L <= lval (vl v) * lval y.
+Proof. exact large_mul_None_iff_overflow. Qed.
+
+Theorem C12_large_mul_empty_quirk :
+  forall (c : config) (L : limits) (v : vec) (y : list Z) (v' : vec),
+         vl v = [] -> 2 <= zlen y -> large_mul c L v y = Some v' -> vl v' = normalize_list y.
+Proof. exact large_mul_empty_quirk. Qed.
+
+Theorem C12_vcompare_spec :
+  forall x y : list Z,
+         limbs_ok x ->
+         limbs_ok y -> is_normalized x = true -> is_normalized y = true -> vcompare x y = (lval x ?= lval y).
+Proof. exact vcompare_spec. Qed.
+
+Theorem C12_vcompare_full :
+  forall x y : list Z,
+         limbs_ok x ->
+         limbs_ok y -> vcompare x y = (if zlen x =? zlen y then lval x ?= lval y else zlen x ?= zlen y).
+Proof. exact vcompare_full. Qed.
+
+Theorem C12_normalize_list_spec :
+  forall l : list Z,
+         lval (normalize_list l) = lval l /\
+         is_normalized (normalize_list l) = true /\
+         (limbs_ok l -> limbs_ok (normalize_list l)) /\
+         (length (normalize_list l) <= length l)%nat /\
+         (is_normalized l = true -> normalize_list l = l) /\
+         (exists k : nat, l = normalize_list l ++ repeat 0 k).
+Proof. exact normalize_list_spec. Qed.
+
+Theorem C12_normalized_lower_bound :
+  forall l : list Z, limbs_ok l -> is_normalized l = true -> l <> [] -> B64 ^ (zlen l - 1) <= lval l.
+Proof. exact normalized_lower_bound. Qed.
+
+Theorem C12_pow5_spec :
+  forall (c : config) (T : tables) (L : limits) (b : build) (v : vec) (e : Z) (v' : vec),
+         (compact c = false -> pow5_tables_ok T = true) ->
+         limbs_ok (vl v) ->
+         0 < lval (vl v) ->
+         0 <= e ->
+         pow5 c T L b v e = Ok (Some v') ->
+         lval (vl v') = lval (vl v) * 5 ^ e /\
+         limbs_ok (vl v') /\ (zlen (vl v) <= vcap v -> zlen (vl v') <= vcap v').
+Proof. exact pow5_spec. Qed.
+
+Theorem C12_pow5_total :
+  forall (c : config) (T : tables) (L : limits) (b : build) (v : vec) (e : Z),
+         (compact c = false -> pow5_tables_ok T = true /\ pow5_large_ok T L = true) ->
+         limbs_ok (vl v) ->
+         0 < lval (vl v) ->
+         0 <= e ->
+         (alloc c = false -> vcap v = BIGINT_LIMBS L /\ zlen (vl v) <= vcap v) ->
+         exists o : option vec,
+           pow5 c T L b v e = Ok o /\
+           match o with
+           | Some v' =>
+               lval (vl v') = lval (vl v) * 5 ^ e /\
+               limbs_ok (vl v') /\ (alloc c = false -> vcap v' = BIGINT_LIMBS L /\ zlen (vl v') <= vcap v')
+           | None => alloc c = false /\ B64 ^ BIGINT_LIMBS L <= lval (vl v) * 5 ^ e
+           end.
+Proof. exact pow5_total. Qed.
+
+Theorem C12_pow5_TABLES_spec :
+  forall (c : config) (b : build) (v : vec) (e : Z) (v' : vec),
+         limbs_ok (vl v) ->
+         0 < lval (vl v) ->
+         0 <= e ->
+         pow5 c TABLES LIMITS b v e = Ok (Some v') -> lval (vl v') = lval (vl v) * 5 ^ e /\ limbs_ok (vl v').
+Proof. exact pow5_TABLES_spec. Qed.
+
+Theorem C12_pow5_TABLES_None_iff_overflow :
+  forall (c : config) (b : build) (v : vec) (e : Z),
+         limbs_ok (vl v) ->
+         0 < lval (vl v) ->
+         0 <= e ->
+         alloc c = false ->
+         vcap v = 62 ->
+         zlen (vl v) <= vcap v -> pow5 c TABLES LIMITS b v e = Ok None <-> B64 ^ 62 <= lval (vl v) * 5 ^ e.
+Proof. exact pow5_TABLES_None_iff_overflow. Qed.
+
+Theorem C12_bigint_pow_10_five_part :
+  forall (c : config) (T : tables) (L : limits) (b : build) (v : vec) (e : Z) (v' : vec),
+         (compact c = false -> pow5_tables_ok T = true) ->
+         limbs_ok (vl v) ->
+         0 < lval (vl v) ->
+         0 <= e ->
+         bigint_pow c T L b v 10 e = Ok (Some v') ->
+         exists v1 : vec,
+           pow5 c T L b v e = Ok (Some v1) /\
+           shl c L b v1 (as_usize e) = Ok (Some v') /\ lval (vl v1) = lval (vl v) * 5 ^ e /\ limbs_ok (vl v1).
+Proof. exact bigint_pow_10_five_part. Qed.
 
 Theorem C12_shl_bits_spec :
   forall (c : config) (L : limits) (b : build) (v : vec) (n : Z) (v' : vec),
@@ -137,6 +364,29 @@ Theorem C12_from_u64_spec :
 Proof. exact from_u64_spec. Qed.
 
 
+Print Assumptions C12_small_add_spec.
+Print Assumptions C12_small_add_None_iff_overflow.
+Print Assumptions C12_small_add_failed_spec.
+Print Assumptions C12_small_mul_spec.
+Print Assumptions C12_small_mul_None_iff_overflow.
+Print Assumptions C12_small_mul_failed_spec.
+Print Assumptions C12_large_add_from_spec.
+Print Assumptions C12_large_add_from_None_iff_overflow.
+Print Assumptions C12_long_mul_spec.
+Print Assumptions C12_long_mul_None_iff_overflow.
+Print Assumptions C12_long_mul_fits_Some.
+Print Assumptions C12_large_mul_spec.
+Print Assumptions C12_large_mul_None_iff_overflow.
+Print Assumptions C12_large_mul_empty_quirk.
+Print Assumptions C12_vcompare_spec.
+Print Assumptions C12_vcompare_full.
+Print Assumptions C12_normalize_list_spec.
+Print Assumptions C12_normalized_lower_bound.
+Print Assumptions C12_pow5_spec.
+Print Assumptions C12_pow5_total.
+Print Assumptions C12_pow5_TABLES_spec.
+Print Assumptions C12_pow5_TABLES_None_iff_overflow.
+Print Assumptions C12_bigint_pow_10_five_part.
 Print Assumptions C12_shl_bits_spec.
 Print Assumptions C12_shl_bits_no_panic.
 Print Assumptions C12_shl_bits_stack_none.
